@@ -58,7 +58,13 @@ def _partial(u):
     return float("nan") if u[0] > 0.7 else _multi(u)
 
 
-FUNCS = {"partial": _partial, "offset": _offset, "sphere": _sphere, "multi": _multi, "funnels": _funnels, "plateau": _plateau, "zero": _zero,
+def _penalty(u):
+    # death penalty: the worst possible value (+inf; the harness mirrors it to -inf for maximisation) on a slab of the box.
+    # It equals the value an exhausted budget wrapper answers with - but it IS an evaluation of the objective.
+    return math.inf if u[-1] > 0.8 else _multi(u)
+
+
+FUNCS = {"penalty": _penalty, "partial": _partial, "offset": _offset, "sphere": _sphere, "multi": _multi, "funnels": _funnels, "plateau": _plateau, "zero": _zero,
          "linear": _linear}
 
 
